@@ -94,6 +94,41 @@ def Coverage.covers : Coverage → Nat → Bool
   | .glyphs gs, g => gs.contains g
   | .ranges rs, g => rs.any (fun r => r.1 ≤ g && g ≤ r.2)
 
+/-! `Coverage::get` — what every subtable asks before it acts — is a BINARY SEARCH (ttf-parser, the same in HarfBuzz).  On a
+    table that is not sorted (malformed, but accepted: nothing validates the order) the search still finds some of the
+    entries; the digest has to report every glyph the search can find.  The search is modelled as written, the theorems
+    (`C10_find_covers`, `C10_collect_sound_found`) make no assumption on the order of the table. -/
+
+/-- src: ttf-parser parser.rs::LazyArray16::binary_search_by, the `while size > 1` loop; `gt x` is `f(x) == Greater`.
+    `fuel` is the code's own variant: `size` decreases by `half ≥ 1` in every round. -/
+def bsearchBase {α : Type} (gt : α → Bool) (xs : List α) : (fuel size base : Nat) → Option Nat
+  | 0, size, base => if size > 1 then none else some base
+  | fuel + 1, size, base =>
+    if size > 1 then
+      let half := size / 2
+      let mid := base + half
+      match xs[mid]? with
+      | none => none                                   -- `self.get(mid)?`
+      | some x => bsearchBase gt xs fuel (size - half) (if gt x then base else mid)
+    else some base
+
+/-- src: ttf-parser parser.rs::LazyArray16::binary_search_by -> (index, value) -/
+def bsearchBy {α : Type} (gt eq : α → Bool) (xs : List α) : Option (Nat × α) :=
+  if xs.length = 0 then none
+  else match bsearchBase gt xs xs.length xs.length 0 with
+    | none => none
+    | some base =>
+      match xs[base]? with
+      | none => none
+      | some v => if eq v then some (base, v) else none
+
+/-- The search of `Coverage::get`: index of the glyph in the array (format 1, `glyphs.binary_search(&glyph)`) resp. index
+    of the range record found (format 2, `records.range(glyph)`).  `Coverage::get` is `Some` only if this is `some`
+    (format 2 additionally needs `value + (glyph - start)` to fit in u16). -/
+def Coverage.find : Coverage → Nat → Option Nat
+  | .glyphs gs, g => (bsearchBy (fun x => decide (x > g)) (fun x => x == g) gs).map (·.1)
+  | .ranges rs, g => (bsearchBy (fun r => decide (g < r.1)) (fun r => decide (r.1 ≤ g) && decide (g ≤ r.2)) rs).map (·.1)
+
 /-- src: ot_layout_common.rs::CoverageExt::collect -/
 def collect (shifts : List Nat) (d : Digest) : Coverage → Digest
   | .glyphs gs => Digest.addArray shifts d gs
